@@ -37,6 +37,9 @@ def options_for(rng):
     )
 
 
+REQUIRED_TAGS = ["redeclared-array", "redeclared-scalar", "type-options", "target-options", "kwarg-list", "loop", "op:measure", "no-arglist", "empty-arglist"]
+
+
 def check_text(ctx, text, tags=()):
     """Returns True when the case counted (valid and in domain)."""
     kind = common.classify(text)
@@ -83,7 +86,7 @@ def run(ctx):
         except RuntimeError:
             ctx.out_of_domain("generator gave up")
             continue
-        check_text(ctx, text)
+        check_text(ctx, text, tags=sorted(t for t in info["tags"] if t.startswith("redeclared")))
 
 
 def replay(w):
